@@ -13,7 +13,7 @@ const (
 	FlagRowKeyConcat  = "rowkey-concat"   // two distinct PK tuples whose %v concatenations are equal are in play
 	FlagCIKey         = "ci-key"          // a key conflict decided by the collation that byte comparison does not see (or vice versa)
 	FlagPrefixBytes   = "prefix-bytes"    // a prefix key where n bytes and n characters give different decisions
-	FlagDeletedUnique = "deleted-unique"  // a unique-key conflict on a value that a row deleted earlier in the same statement also had (PK tables)
+	FlagDeletedUnique = "deleted-unique"  // a row whose unique-key values equal those of a row version deleted earlier in the same statement (PK tables)
 	FlagReplaceMulti  = "replace-multi"   // a REPLACE row displaced two or more rows (affected-rows count)
 	FlagCINoopUpdate  = "ci-noop-update"  // an UPDATE/ODKU changes a row only within collation-equal strings
 	FlagAddUniqueLeft = "add-unique-left" // ALTER TABLE ADD UNIQUE must fail on prefix-duplicates only (the engine's pre-check compares full values, the index is created and the later failure does not remove it)
@@ -300,6 +300,25 @@ func (e *Env) conflicts(t *Table, keys []Key, w []Row, cand Row, skip int, delet
 					if _, bug, _, _ := e.keyEq(t, k, d.row, cand); bug && d.stored {
 						o.flag(FlagDeletedUnique)
 					}
+				}
+			}
+			// (c) The engine handles the conflicts of one row one after the other (REPLACE: delete
+			// the reported row, try again), so its pending-deletes map changes between the checks
+			// of the keys of a single row - e.g. the spurious conflict of (b) re-deletes the stored
+			// row, which then is the "last deleted" version again and makes later rows bail. The
+			// model evaluates all keys of a row against one `deleted` list and does not follow
+			// that. Whatever the path, the defect can only influence a row whose unique-key values
+			// equal (byte-wise) those of *some* row version deleted earlier in the statement: that
+			// is the region. The candidate's own previous version (UPDATE / ODKU: the last element,
+			// see the callers) is left to the two narrower predicates above, otherwise every
+			// UPDATE that keeps a unique column would be in the region.
+			others := deleted
+			if skip >= 0 {
+				others = deleted[:len(deleted)-1]
+			}
+			for _, d := range others {
+				if _, bug, _, _ := e.keyEq(t, k, d.row, cand); bug {
+					o.flag(FlagDeletedUnique)
 				}
 			}
 		}
